@@ -40,6 +40,11 @@ FUNCTIONS = [
     'pymap.imap.state:ConnectionState.do_select',
     'pymap.backend.maildir.uidlist:UidList._build_header', 'pymap.backend.maildir.uidlist:UidList._read_header',
     'pymap.backend.maildir.uidlist:UidList._build_line', 'pymap.backend.maildir.uidlist:UidList._read_line',
+    'pymap.backend.maildir.mailbox:MailboxData.append', 'pymap.backend.maildir.mailbox:MailboxData.copy',
+    'pymap.backend.maildir.mailbox:MailboxData.move', 'pymap.backend.maildir.io:_FileWriteWith.__aenter__',
+    'pymap.backend.maildir.io:_FileWriteWith.__aexit__', 'pymap.backend.maildir.io:FileReadable.file_read',
+    'pymap.backend.maildir.io:FileWriteable.file_write', 'pymap.backend.maildir.uidlist:UidList.read',
+    'pymap.backend.maildir.uidlist:UidList.write', 'pymap.concurrent:FileLock.write_lock', 'pymap.concurrent:FileLock.read_lock',
 ]
 ASSUMPTIONS = [
     'histories of <= d operations from <= 2 initial messages; <= 3 COPYUID pairs with numbers 1..9999',
@@ -48,6 +53,9 @@ ASSUMPTIONS = [
     'UIDVALIDITY of a re-created mailbox of the same name is not claimed to differ (time + 16 random bits)',
 ]
 STUBS = ['coroutines driven with send(None)', 'sessions attached directly',
+         'maildir_uidlist_writers: in-memory file system (contents written and read by the real code), stub Maildir object '
+         'store, symbolic clock below the lock expiration, asyncio.sleep suspends; a third party may hold the lock file and '
+         'releases it within the first steps',
          'concurrent_adders: mailbox read-write locks replaced by an exclusion-preserving stub whose acquisition may be '
          'delayed (third-party contention); the lock implementation itself is C20']
 OUTSIDE = ['maildir UID assignment across restart and crash points (C15)', 'more than 3 concurrent additions']
